@@ -168,16 +168,24 @@ def small(spec, ctx, SS, gf128, entropy):
 def large(spec, ctx, SS, gf128, entropy):
     rng = ctx.rng
     while not ctx.expired():
-        n = rng.choice([7, 8, 10, 16, 25, 40, 64, 255, 256, 257])
-        k = rng.choice([2, 3, n // 2, n - 1, n]) if n <= 40 else rng.choice([2, 3, 5, 9])
-        k = max(2, min(k, 12 if n > 16 else 16))
+        n = rng.choice([7, 8, 10, 16, 25, 40, 48, 64, 100, 255, 256, 257])
+        # thresholds up to n for n <= 64 and up to 48 with share indexes up to 257: products of many large
+        # indexes must still be reduced in GF(2^128) (the sum of the index bit lengths passes 128)
+        k = rng.choice([2, 3, n // 2, n - 1, n]) if n <= 64 else rng.choice([2, 3, 5, 9, 17, 20, 24, 33, 40, 48])
+        k = max(2, k)
         ssss = rng.random() < 0.5
         secret = rng.choice(SECRETS + [rng.getrandbits(128)] * 4)
         tape_bytes = bytes(rng.getrandbits(8) for _ in range(16 * (k - 1)))
         shares, tape = split_with_tape(SS, entropy, k, n, secret, ssss, tape_bytes)
-        check_split(ctx, gf128, k, n, secret, ssss, shares, tape, tape_bytes, None)
-        for _ in range(6):
-            sel = rng.sample(shares, k)
+        if k <= 24 or rng.random() < 0.25:
+            check_split(ctx, gf128, k, n, secret, ssss, shares, tape, tape_bytes, None)
+        for trial in range(6):
+            if trial == 0:
+                sel = shares[-k:]                       # the k largest indexes
+            elif trial == 1:
+                sel = shares[:k][::-1]                  # the k smallest, descending
+            else:
+                sel = rng.sample(shares, k)
             ctx.case(("large", ssss, k, n, tuple(s[0] for s in sel)))
             try:
                 got = SS.Shamir.combine(sel, ssss)
